@@ -87,6 +87,7 @@ structure NewGrpOpts where
   priv : PrivArg := .absent
   pub : PrivArg := .absent
   hasDesc : Bool := false
+  chan : Bool := false            -- `nch…`: a channel-enabled group topic
 
 /-- symbolic name of the n-th group topic; spelled out for small n so that closed terms reduce in the kernel -/
 def tName : Nat → String
@@ -98,26 +99,27 @@ def Ctx.opNewGrp (c : Ctx) (a : Actor) (o : NewGrpOpts) : Ctx :=
   let tn := tName c.w.nextT
   let pubTok : Tok := match o.pub with | .val s => some s | _ => none
   let privTok : Tok := match o.priv with | .val s => some s | _ => none
-  -- default access
+  -- default access (getDefaultAccess: a channel's default lacks J - its readers come in under the channel name)
+  let defAuth := if o.chan then modeCChnWriter else modeCPublic
   let (auth, anon) :=
     if o.auth ≠ "" ∨ o.anon ≠ "" then
-      let (au, ok1) := if o.auth ≠ "" then unmarshalKeep modeCPublic o.auth else (modeCPublic, true)
+      let (au, ok1) := if o.auth ≠ "" then unmarshalKeep defAuth o.auth else (defAuth, true)
       let (an, ok2) := if o.anon ≠ "" then unmarshalKeep modeNone o.anon else (modeNone, true)
       -- parseTopicAccess keeps the error of the last component parsed
       let err := if o.anon ≠ "" then !ok2 else !ok1
       if err then (au, an)
       else if isOwner au ∨ isOwner an then (au &&& ~~~modeOwner, an &&& ~~~modeOwner)
       else (au, an)
-    else (modeCPublic, modeNone)
+    else (defAuth, modeNone)
   let want :=
     if o.want ≠ "" then (unmarshalKeep modeCFull o.want).1 ||| modeJoin ||| modeOwner else modeCFull
-  let row : TopicRow := { name := tn, owner := a.uid, auth := auth, anon := anon, pub := pubTok }
+  let row : TopicRow := { name := tn, owner := a.uid, auth := auth, anon := anon, pub := pubTok, chan := o.chan }
   let (c, ok) := c.call "TopicCreate" (fun w => { w.setRow row with nextT := w.nextT + 1 })
   if !ok then c.emit a.sid (ctrl 500 (if c.w.nextT = c.w.nextT then "?new" else "")) else
   let (c, ok) := c.subsCreate tn (newSubRow a.uid want modeCFull privTok)
   if !ok then c.emit a.sid (ctrl 500 "?new") else
   let t : Topic := { name := tn, owner := a.uid, auth := auth, anon := anon, pub := pubTok,
-                     perUser := [(a.uid, { want := want, given := modeCFull, priv := privTok })] }
+                     perUser := [(a.uid, { want := want, given := modeCFull, priv := privTok })], isChan := o.chan }
   let c := c.putLive t
   let (c, t, _) := c.subscriptionReply t a o.want o.priv true true false
   c.putLive t
